@@ -557,6 +557,22 @@ def _info_sets(out, specs, r):
                 out.fail("stream-sets:seed-list-of-another-stream-rewritten",
                          {"stream": "crn-twin", "now": list(ia.get_seed_values("crn-twin"))[:5]})
                 return
+            # the "default" stream of the set is replaced (after somebody already asked for it): from then on the
+            # new generator is the default stream, for get_stream, get_streams and the updaters
+            idf = StreamSeedInformation()
+            idf.get_stream("default")
+            new_default = MersenneTwister(specs[0][1] + 5)
+            idf.add_stream("default", new_default)
+            if idf.get_stream("default") is not new_default or idf.get_streams().get("default") is not new_default:
+                out.fail("stream-sets:replaced-default-stream-not-used", {"get_stream": repr(idf.get_stream("default"))})
+                return
+            exc = _call(_simple().update_seeds, idf.get_streams(), r)
+            alone_d = MersenneTwister(specs[0][1] + 5)
+            exc_d = _call(_simple().update_seed, "default", alone_d, r)
+            if exc != exc_d or idf.get_stream("default").seed() != alone_d.seed():
+                out.fail("stream-sets:replaced-default-stream-not-used",
+                         {"r": r, "seed": idf.get_stream("default").seed(), "want": alone_d.seed(), "exc": [exc, exc_d]})
+                return
             # the list configured last for a name is the list of that name
             if list(ia.get_seed_values("crn-first")) != [700, 701]:
                 out.fail("stream-sets:replaced-seed-list-not-used",
